@@ -1,16 +1,27 @@
-"""Property theorems that exist in the built library, per property (audited on every run: existence + axioms).
+"""Property theorems per property: every `theorem` declared in lean/PMC/Properties/<id>.lean (namespace PMC.<id>).
 
-Only names listed here are claimed; a name is added when its proof is committed."""
+The audit (common.audit) checks on every run that each of them exists in the built library and depends on no axiom
+beyond propext / Classical.choice / Quot.sound.  MIN guards against a theorem silently disappearing from a file.
+"""
+import os
+import re
 
-THEOREMS = {
-    'C12': (['PMC.Properties.C12'], ['PMC.C12.scc_partition', 'PMC.C12.scc_nodes', 'PMC.C12.scc_exact']),
-    'C13': (['PMC.Properties.C13'], ['PMC.C13.' + t for t in (
-        'mk_wf mk_nodes mk_edges mem_next_iff_edge edge_nodes hasNode_iff addNodeRaw_wf addNodeRaw_nodes '
-        'addNodeRaw_edges addEdgeIgnore_wf addEdgeIgnore_nodes addEdgeIgnore_edges addEdge_error_iff addNode_error_iff '
-        'subgraph_wf subgraph_nodes subgraph_edges reversed_wf reversed_nodes reversed_edges reversed_reversed '
-        'clone_eq reach_exact reach_error').split()]),
-}
+LEAN = os.path.join(os.path.dirname(os.path.dirname(os.path.abspath(__file__))), 'lean')
+
+MIN = {'C01': 4, 'C02': 3, 'C12': 3, 'C13': 24, 'C14': 12, 'C16': 6, 'C17': 6, 'C18': 5}
+
+EXTRA_MODULES = {}
 
 
 def get(pid):
-    return THEOREMS.get(pid, ([], []))
+    path = os.path.join(LEAN, 'PMC', 'Properties', pid + '.lean')
+    if not os.path.exists(path):
+        return ([], [])
+    src = open(path).read()
+    # strip block comments
+    src = re.sub(r'/-.*?-/', '', src, flags=re.S)
+    names = re.findall(r'^theorem\s+([A-Za-z_][A-Za-z0-9_\'.]*)', src, flags=re.M)
+    ths = ['PMC.%s.%s' % (pid, n) for n in names]
+    if len(ths) < MIN.get(pid, 0):
+        raise RuntimeError('%s: expected at least %d property theorems, found %d' % (pid, MIN.get(pid, 0), len(ths)))
+    return (['PMC.Properties.' + pid] + EXTRA_MODULES.get(pid, []), ths)
